@@ -285,3 +285,89 @@ def point_map_bounds(ctx):
                 "writes outside the allocated extent: %s" % sorted({b[0] for b in bad}),
                 "arrays allocated for %s entries are written at %s (indexed by element number, not by position in support_elements): out of bounds for any space whose support is not the leading elements"
                 % (bad[0][2] if bad else "", [b[1] for b in bad][:2]))
+
+
+# ---------------------------------------------------------------- row / column conventions of the FMM transforms
+
+
+def _poly_of(node, defs, line=None):
+    """Exact polynomial (alg.V) of an integer index expression; names resolve through single definitions, everything
+    else is an atom named by its canonical text."""
+    from .alg import V as _V
+
+    if isinstance(node, ast.Constant) and isinstance(node.value, int):
+        return _V.const(node.value)
+    if isinstance(node, ast.BinOp) and isinstance(node.op, (ast.Add, ast.Sub, ast.Mult)):
+        a, b = _poly_of(node.left, defs), _poly_of(node.right, defs)
+        return a + b if isinstance(node.op, ast.Add) else a - b if isinstance(node.op, ast.Sub) else a * b
+    if isinstance(node, ast.Name):
+        d = defs.lookup(node.id, getattr(node, "lineno", line))
+        if d is not None and d[0] == "expr":
+            return _poly_of(d[1], defs)
+        return _V.atom(node.id)
+    return _V.atom(roles.canon(node, defs).replace(" ", ""))
+
+
+def transform_rows(ctx):
+    """The FMM evaluates at one point cloud with nq points per GRID element (Grid.map_to_point_cloud); every matrix
+    that maps space coefficients to values at those points must therefore use row nq*element + q (element NUMBER),
+    and column = localised dof (number_of_shape_functions * POSITION in support_elements + local index)."""
+    from .alg import V as _V
+
+    r = ctx.rule("FMM-ROWS", "FMM coefficient-to-point transforms number rows by element number (nq*element + q) like the point cloud and get_normals, and columns by localised dof (3*position + local)", 5)
+    m = ctx.repo.mod(FA)
+    for fname in ("compute_p1_curl_transformation_impl", "compute_rwg_basis_transform_impl", "compute_rwg_div_transform_impl"):
+        fn = m.fn(fname)
+        defs = roles.Defs(fn)
+        pa = arg_names(fn)
+        rets = [s for s in fn.body if isinstance(s, ast.Return)]
+        if len(rets) != 1 or not isinstance(rets[0].value, ast.Tuple) or len(rets[0].value.elts) != 3 or not all(isinstance(e, ast.Name) for e in rets[0].value.elts):
+            raise AnalysisError("%s: does not return (data, row indices, column indices) from locals" % fname)
+        _, RI, CI = (e.id for e in rets[0].value.elts)
+        S = roles.stores(fn.body, defs, lv=False)
+        rs = [s for s in S if isinstance(s.tnode, ast.Subscript) and unparse(s.tnode.value) == RI]
+        cs = [s for s in S if isinstance(s.tnode, ast.Subscript) and unparse(s.tnode.value) == CI]
+        ok, why, line = False, "row/column index stores not found", fn.lineno
+        if len(rs) == 1 and len(cs) == 1 and len(rs[0].loops) == 3 and rs[0].loops == cs[0].loops:
+            lE, lF, lQ = rs[0].loops
+            line = rs[0].node.lineno
+            if isinstance(lE.target, ast.Tuple) and len(lE.target.elts) == 2 and roles.canon(lE.iter, defs).replace(" ", "") == "enumerate(support_elements)" and "support_elements" in pa:
+                POS, ELEM = (_V.atom(e.id) for e in lE.target.elts)
+                Fv, Q = _V.atom(lF.target.id), _V.atom(lQ.target.id)
+                nq = _poly_of(lQ.iter.args[0], defs) if isinstance(lQ.iter, ast.Call) and unparse(lQ.iter.func) == "range" and len(lQ.iter.args) == 1 else None
+                row, col = _poly_of(rs[0].vnode, defs), _poly_of(cs[0].vnode, defs)
+                ok_r = nq is not None and row.eq(nq * ELEM + Q)
+                ok_c = col.eq(_V.const(3) * POS + Fv)
+                ok = ok_r and ok_c
+                why = "row index is `%s` (must be nq*element + q with the element NUMBER: the point cloud has nq rows per grid element); column index is `%s` (must be 3*position + local function)" % (
+                    unparse(rs[0].vnode), unparse(cs[0].vnode))
+        r.check(ok, fname, FA, fname, line, "row/column convention of " + fname, why)
+    # the normals the evaluators multiply with use the same row convention, over ALL grid elements
+    fn = m.fn("get_normals")
+    defs = roles.Defs(fn)
+    S = [s for s in roles.stores(fn.body, defs, lv=False) if isinstance(s.tnode, ast.Subscript) and len(s.loops) == 2]
+    okn, whyn = False, "normals store not found"
+    if len(S) == 1:
+        lE, lQ = S[0].loops
+        first = S[0].tnode.slice.elts[0] if isinstance(S[0].tnode.slice, ast.Tuple) else S[0].tnode.slice
+        e, q = _V.atom(lE.target.id), _V.atom(lQ.target.id)
+        nq = _poly_of(lQ.iter.args[0], defs)
+        full = roles.canon(lE.iter, defs).replace(" ", "") == "range(%s.grid.number_of_elements)" % arg_names(fn)[0]
+        okn = full and _poly_of(first, defs).eq(nq * e + q) and S[0].value == roles.expect("S.grid.normals[E] * S.normal_multipliers[E]", defs, S[0].node.lineno, lv=False, S=arg_names(fn)[0], E=lE.target.id)
+        whyn = "normals[%s] = %s over %s" % (unparse(first), unparse(S[0].vnode)[:60], unparse(lE.iter)[:50])
+    r.check(okn, "get_normals", FA, "get_normals", fn.lineno, "row convention of get_normals", whyn)
+    # the scalar point map (two copies): rows arange(elem*nlp, (elem+1)*nlp) by element number
+    for rel in (SP, FH):
+        fn = ctx.repo.mod(rel).fn("map_space_to_points_impl")
+        defs = roles.Defs(fn)
+        rets = [s for s in fn.body if isinstance(s, ast.Return)]
+        VI = rets[0].value.elts[2].id if rets and isinstance(rets[0].value, ast.Tuple) and len(rets[0].value.elts) == 3 and isinstance(rets[0].value.elts[2], ast.Name) else None
+        S = [s for s in roles.stores(fn.body, defs, lv=False) if VI and isinstance(s.tnode, ast.Subscript) and unparse(s.tnode.value) == VI]
+        okm, whym = False, "point-row store not found"
+        if len(S) == 1 and S[0].loops and isinstance(S[0].loops[0].target, ast.Tuple) and isinstance(S[0].vnode, ast.Call) and unparse(S[0].vnode.func).endswith("arange") and len(S[0].vnode.args) == 2:
+            ELEM = _V.atom(S[0].loops[0].target.elts[1].id)
+            lo, hi = (_poly_of(a, defs) for a in S[0].vnode.args)
+            nlp = hi - lo
+            okm = lo.eq(nlp * ELEM) and not any(at == S[0].loops[0].target.elts[0].id for at in nlp.atoms())
+            whym = "point rows are arange(%s, %s): must be [nlp*element, nlp*(element+1)) with the element NUMBER" % (unparse(S[0].vnode.args[0]), unparse(S[0].vnode.args[1]))
+        r.check(okm, "%s::map_space_to_points_impl" % rel.split("/")[-1], rel, "map_space_to_points_impl", fn.lineno, "row convention of map_space_to_points_impl (%s)" % rel.split("/")[-1], whym)
